@@ -995,6 +995,11 @@ func (s *Server) processPublish(cl *Client, pk packets.Packet) error {
 		s.hooks.OnQosPublish(cl, ack, ack.Created, 0)
 	}
 
+	// the message is handed to its subscribers (and their in-flight copies are stored) before the publisher is
+	// told that the broker has taken responsibility for it
+	s.publishToSubscribers(pk)
+	s.hooks.OnPublished(cl, pk)
+
 	err = cl.WritePacket(ack)
 	if err != nil {
 		return err
@@ -1007,9 +1012,6 @@ func (s *Server) processPublish(cl *Client, pk packets.Packet) error {
 		cl.State.Inflight.IncreaseReceiveQuota()
 		s.hooks.OnQosComplete(cl, ack)
 	}
-
-	s.publishToSubscribers(pk)
-	s.hooks.OnPublished(cl, pk)
 
 	return nil
 }
